@@ -682,7 +682,14 @@ pub fn s_classify(thorough: bool) -> Vec<WCfg> {
                                     if pay_fails && (fname != "absent" || damage != "none" || !hash_equal) {
                                         continue;
                                     }
-                                    out.push(classify_case(inv_amount, sig, &hint, hash_equal, allow, fname, field.clone(), damage, pay_fails));
+                                    out.push(classify_case(inv_amount, sig, &hint, hash_equal, allow, fname, field.clone(), damage, pay_fails, false));
+                                    // the same HTLC arriving while a well-formed first part for the same invoice is held:
+                                    // classification may not depend on what the plugin already holds for that invoice
+                                    let first_is_trampoline = sig != "explicit-bad" && !(hint == Hint::SelfLast && !allow);
+                                    let conflicting_amountless = inv_amount.is_none() && damage == "none" && (fname.contains("plus1") || fname.contains("minus1") || fname.contains("zero"));
+                                    if first_is_trampoline && !pay_fails && !conflicting_amountless {
+                                        out.push(classify_case(inv_amount, sig, &hint, hash_equal, allow, fname, field.clone(), damage, pay_fails, true));
+                                    }
                                 }
                             }
                         }
@@ -705,9 +712,10 @@ fn classify_case(
     field: Option<Vec<u8>>,
     damage: &str,
     pay_fails: bool,
+    with_first: bool,
 ) -> WCfg {
     let mut c = WCfg::base(&format!(
-        "S-classify/amt={:?}/sig={}/hint={:?}/hash{}/allow={}/field={}/damage={}{}",
+        "S-classify/amt={:?}/sig={}/hint={:?}/hash{}/allow={}/field={}/damage={}{}{}",
         inv_amount,
         sig,
         hint,
@@ -715,7 +723,8 @@ fn classify_case(
         allow,
         fname,
         damage,
-        if pay_fails { "/payfails" } else { "" }
+        if pay_fails { "/payfails" } else { "" },
+        if with_first { "/after-first-part" } else { "" }
     ));
     c.allow_self_hints = allow;
     c.max_crashes = 0;
@@ -795,6 +804,14 @@ fn classify_case(
     };
     let pay_amount = amount.unwrap_or(1_000_000);
     let need = c.required(pay_amount).min(2_000_000_000_000_000_000) as u64;
+    if with_first {
+        // a well-formed first part (1 msat) for the same invoice, held when "h" arrives
+        let first_amount = inv_amount.unwrap_or(1_000_000);
+        let need_first = c.required(first_amount).min(2_000_000_000_000_000_000) as u64;
+        let tlv = if inv_amount.is_none() { Some(common::tu64(first_amount)) } else { None };
+        let p = add_htlc_full(&mut c, "p", inv, 1, Some(need_first.max(1)), tlv);
+        set_amount(&mut c, p, first_amount);
+    }
     let t = c.add_htlc("h", inv, need.max(1), need.max(1));
     let meta_amount: Option<Vec<u8>> = field.clone();
     let extra_when_no_invoice = if damage == "no-invoice-record" { Some(common::tu64(1_000_000)) } else { meta_amount };
